@@ -41,12 +41,22 @@ def cases(draw, tier):
         # coalition size just above / below k quotas of the final total (solve t = k*(n0+t)/(s+1) + eps)
         target = Fraction(k * n0, s + 1 - k) if s + 1 - k > 0 else Fraction(n0)
         t = max(1, int(target) + d.int(-1, 2))
-        lines = d.int(1, 3)
-        for j in range(lines):
-            m = t // lines + (1 if j < t % lines else 0)
-            if m > 0:
-                r = d.perm(S) + d.sample(rest, d.int(0, len(rest)))
+        if d.p(20):
+            # tied tail: every member leads one line of the same weight (rotations), so the coalition's members tie exactly -
+            # whichever way the tie is broken (or batched), the coalition keeps its entitlement
+            m = max(1, -(-t // size))
+            order = d.perm(S)
+            for j in range(size):
+                r = order[j:] + order[:j] + d.sample(rest, d.int(0, len(rest)))
                 case['ballots'].append([m, [[c] for c in r]])
+            case['tied_tail'] = True
+        else:
+            lines = d.int(1, 3)
+            for j in range(lines):
+                m = t // lines + (1 if j < t % lines else 0)
+                if m > 0:
+                    r = d.perm(S) + d.sample(rest, d.int(0, len(rest)))
+                    case['ballots'].append([m, [[c] for c in r]])
     return case
 
 
@@ -112,6 +122,8 @@ def check(case):
             if 2 * v > n and c not in winners:
                 res.fail('majority', 'majority|' + base, 'candidate %d is ranked first on %d of %d ballots and loses to %s' % (c, v, n, sorted(winners)))
     res.tag('rule:' + rule)
+    if case.get('tied_tail'):
+        res.tag('coalition-members-tied')
     if vac:
         res.tag('vacuous-integer')
     if near:
